@@ -8,7 +8,7 @@ import pytenet as ptn
 from core import Part, require, Violation
 from gen_graph import (chain_list, build_chains, chain_tuples, physical_charges, random_opmap, layered_graph, build_graph,
                        graph_desc_poly, OID_ID, SYMBOLS, with_identity_id, opmap_with_identity_id, swap_id)
-from oracle_sym import frac, chains_poly, graph_poly, graph_layers, poly_matrix, poly_close, poly_json, absconv
+from oracle_sym import frac, chains_poly, graph_poly, graph_layers, poly_matrix, poly_close, poly_json, absconv, require_consistent
 from oracle_dense import mpo_to_mat, mpo_mask_violation
 
 ID = 'C05'
@@ -112,7 +112,7 @@ def check_chain_list(case, rec):
                 'OpChain.padded does not return the identity-padded chain', istart=p.istart, oids=list(p.oids), qnums=list(p.qnums))
         require(ch.istart == cd['istart'] and ch.length == len(cd['oids']), 'OpChain.padded modified the chain')
     graph = ptn.OpGraph.from_opchains(chains, L, OID_ID)
-    require(graph.is_consistent(), 'graph fails its own consistency check')
+    require_consistent(graph, 'from_opchains')
     require(graph.length == L, 'graph has the wrong length', got=graph.length, want=L)
     got = graph_poly(graph, conv)
     magsum = float(sum(chains_poly(chain_tuples(case), L, OID_ID, absconv).values()))
@@ -187,7 +187,7 @@ def check_exhaustive_chunk(case, rec):
         want = chains_poly(chain_tuples(desc), L, ident, frac)
         try:
             graph = ptn.OpGraph.from_opchains(build_chains(desc), L, ident)
-            require(graph.is_consistent(), 'graph fails its own consistency check')
+            require_consistent(graph, 'from_opchains')
             require(graph.length == L, 'graph has the wrong length')
             compare_poly(graph_poly(graph, frac), want, True, 'from_opchains')
         except Exception as e:  # narrow the replay to this program
